@@ -74,6 +74,8 @@ CLAIMS = {
              "backslash-newline, and the sequence kept literally for every other character (incl. \\N \\u \\U, which are not escapes in "
              "bytes literals); BytesLiteralBuilder.append_charval appends exactly the byte n % 256 for every n in 0..0o777 (CPython keeps "
              "the low 8 bits of b'\\777') and UnicodeLiteralBuilder.append_charval exactly chr(n). EXHAUSTIVE: the 7-entry escape table. "
+             "Also: the items a for-loop over a bytes literal delivers to an object target are int objects holding the literal's bytes "
+             "(L3 unit L3bytesiter, shared with C14). "
              "Kernel: these functions; the LZSS string-table compression setting is decided at item level under C12.",
         note="Trusted: dv Python front end (PSeq string model, int(text, base) closed form for <= 8 digits), z3; the scanner guarantees "
              "about the shape of escape sequences (Lexicon.py) are preconditions, not proved. NOT covered: str / f-string literals "
@@ -160,13 +162,15 @@ CLAIMS = {
              "bound and increment) states that at the k-th entry of the body the loop variable is element k of Python's sequence, "
              "termination by a decreasing measure, and the postcondition gives the iteration count len(range(a, b, s)), the final "
              "value of the loop variable (untouched for an empty sequence), the else clause exactly when no break happened and the "
-             "position of the first hit for break - for ALL bounds a, b (unbounded iteration counts; no unrolling). Kernel: "
+             "position of the first hit for break - for ALL bounds a, b (unbounded iteration counts; no unrolling). Also: a loop over a bytes LITERAL with an object "
+             "or C-int target appends int objects holding the literal's bytes, in order (L3 unit L3bytesiter on the object model, 2-item loop "
+             "unrolled with an unwinding assertion). Kernel: "
              "programs are the stated catalogue; inputs are universally quantified.",
         note="Trusted: dv C front end (loop-invariant rule), z3, the closed form of len(range()) (validated against CPython every run), "
              "the Div/Mod helper contracts proved under C03. Value obligations assume absence of C undefined behaviour; the overflow "
              "obligations of the emitted counter arithmetic are part of this check and hold except in the recorded finding "
              "C14-range-counter-overflow (bounds near the type limits; witness replayed natively every run). NOT covered: range with a "
-             "run-time step (Python iteration protocol), object loop targets, enumerate, dict/set/str/bytes/C-array iteration, "
+             "run-time step (Python iteration protocol), object loop targets of range loops, enumerate, dict/set/str/bytes-object/C-array iteration, "
              "dict_iter/set_iter helpers and the mutation-during-iteration RuntimeError.",
         ref="4 C14"),
     "C20": dict(
